@@ -13,7 +13,8 @@ EXTENDS Naturals, Sequences, FiniteSets, SequencesExt, TLC, Json
 CONSTANTS OutFile, DepChoice   \* DepChoice: "all" (64 dependency shapes) or "some" (16)
 
 N == {"n1", "n2", "n3", "r"}
-Pkg(n) == CASE n = "n3" -> <<"p", "q">> [] n = "r" -> <<"r">> [] OTHER -> <<"p">>
+\* layout "root": r lives in the workspace's root package (label //:r)
+Pkg(g, n) == CASE n = "n3" -> <<"p", "q">> [] n = "r" -> (IF g.layout = "root" THEN <<>> ELSE <<"r">>) [] OTHER -> <<"p">>
 Before == [n \in N |-> CASE n = "n1" -> {} [] n = "n2" -> {"n1"} [] n = "n3" -> {"n1", "n2"} [] n = "r" -> {"n1", "n2", "n3"}]
 
 DepFns == {d \in [N -> SUBSET N] : \A n \in N : d[n] \subseteq Before[n]}
@@ -22,7 +23,9 @@ DepShapes == IF DepChoice = "all" THEN DepFns
 Plats == { [n1 |-> "any", r |-> "any"], [n1 |-> "host", r |-> "any"], [n1 |-> "other", r |-> "any"], [n1 |-> "any", r |-> "other"] }
 \* valid graphs only (C11): acyclic, and no non-test target depends -- directly or through the alias -- on a test target
 ResolvedDeps0(g, n) == {IF d = "n2" /\ g.alias2 # "none" THEN g.alias2 ELSE d : d \in (IF n = "n2" /\ g.alias2 # "none" THEN {} ELSE g.deps[n])}
-Graphs == { g \in [alias2 : {"none", "n1", "n3"}, deps : DepShapes, tag : {{}, {"n1"}, {"n3"}}, test : {{}, {"n3"}, {"r"}}, plat : Plats] :
+Graphs == { g \in [alias2 : {"none", "n1", "n3"}, deps : DepShapes, tag : {{}, {"n1"}, {"n3"}}, test : {{}, {"n3"}, {"r"}}, plat : Plats,
+                    layout : {"std", "root"}] :
+              /\ g.layout = "root" => (g.tag = {} /\ g.plat = [n1 |-> "any", r |-> "any"])     \* (the layout is about patterns only)
               /\ g.alias2 = "n3" => "n2" \notin g.deps["n3"]
               /\ \A n \in N : \A d \in ResolvedDeps0(g, n) : d \in g.test => n \in g.test }
 
@@ -38,9 +41,11 @@ PatternSets == { {P("//...", <<>>, TRUE, "")}, {P("//p/...", <<"p">>, TRUE, "")}
                  {P("//p:n1", <<"p">>, FALSE, "n1")}, {P(":n1", <<"p">>, FALSE, "n1")}, {P("//r", <<"r">>, FALSE, "r")},
                  {P("//p/q/...", <<"p", "q">>, TRUE, "")}, {P("//p:n2", <<"p">>, FALSE, "n2")},
                  {P("//p:n1", <<"p">>, FALSE, "n1"), P("//r", <<"r">>, FALSE, "r")}, {P("//p/...:n3", <<"p">>, TRUE, "n3")},
-                 {P(":all", <<"p">>, FALSE, "")}, {P("//...:n1", <<>>, TRUE, "n1")}, {P("//...:all", <<>>, TRUE, "")} }
+                 {P(":all", <<"p">>, FALSE, "")}, {P("//...:n1", <<>>, TRUE, "n1")}, {P("//...:all", <<>>, TRUE, "")},
+                 \* the root package, non-recursively: exactly the targets of the root package
+                 {P("//:all", <<>>, FALSE, "")}, {P("//:r", <<>>, FALSE, "r")}, {P("//:n1", <<>>, FALSE, "n1")} }
 IsPrefixSeq(a, b) == Len(a) <= Len(b) /\ SubSeq(b, 1, Len(a)) = a
-PatMatches(g, pt, n) == /\ IF pt.rec THEN IsPrefixSeq(pt.prefix, Pkg(n)) ELSE Pkg(n) = pt.prefix
+PatMatches(g, pt, n) == /\ IF pt.rec THEN IsPrefixSeq(pt.prefix, Pkg(g, n)) ELSE Pkg(g, n) = pt.prefix
                         /\ pt.name = "" \/ pt.name = Name(g, n)
 Invocations == [pats : PatternSets, tagf : {"none", "want-t1", "exclude-t1"}, type : {"build", "test"}, allp : BOOLEAN]
 
@@ -76,7 +81,7 @@ AllPlatformsNeverErrors == inv.allp => ~PlatformError(g, inv)
 
 InvSeq == SetToSeq(Invocations)
 Export == [ invocations |-> [k \in 1..Len(InvSeq) |-> [pats |-> {pt.str : pt \in InvSeq[k].pats}, tagf |-> InvSeq[k].tagf, type |-> InvSeq[k].type, allp |-> InvSeq[k].allp]],
-            graphs |-> SetToSeq({ [g |-> [alias2 |-> x.alias2, deps |-> x.deps, tag |-> x.tag, test |-> x.test, plat |-> x.plat],
+            graphs |-> SetToSeq({ [g |-> [alias2 |-> x.alias2, deps |-> x.deps, tag |-> x.tag, test |-> x.test, plat |-> x.plat, layout |-> x.layout],
                                    results |-> [k \in 1..Len(InvSeq) |-> Result(x, InvSeq[k])]] : x \in Graphs }) ]
 ASSUME OutFile = "" \/ JsonSerialize(OutFile, Export)
 =============================================================================
